@@ -173,6 +173,16 @@ def check_wrapper(ck, prog, rule, api_rel, api_qual, backend_key, argmap=None, a
                           note="the API method must forward to its own backend routine")
             continue
         for own_p, formal in argmap.items():
+            # a parameter that is rebound inside the wrapper no longer carries what the caller passed
+            for n in ast.walk(f.node):
+                if isinstance(n, (ast.Assign, ast.AugAssign)) and any(isinstance(x, ast.Name) and x.id == own_p and isinstance(x.ctx, ast.Store)
+                                                                       for t in (n.targets if isinstance(n, ast.Assign) else [n.target]) for x in ast.walk(t)):
+                    txt = unparse(n.value).replace(" ", "")
+                    changing = txt.startswith(("sorted(", "set(", "list(set(", "reversed(", "list(reversed(", "frozenset(", "tuple(sorted(", "sorted(set(", "list(sorted(")) or txt.endswith("[::-1]")
+                    if not changing:
+                        raise Undecided("unrecognised shape: %s rebinds its parameter '%s' (%s) before forwarding it" % (f.qual, own_p, unparse(n)[:50]), f.loc(n))
+                    good &= ck.ob(rule, construct, False, expected="%s reaches %s as the caller passed it" % (own_p, formal), found=unparse(n)[:80], slot=own_p + ":rebound", where=f.loc(n),
+                                  note="re-ordering or de-duplicating the caller's list changes what the backend stores")
             actual = b.get(formal)
             if actual is None:
                 good &= ck.ob(rule, construct, False, expected="%s -> %s" % (own_p, formal), found="parameter %s is not forwarded" % own_p,
